@@ -12,14 +12,14 @@
      8 Go tokens  <> model tokens        (correspondence) *)
 From Coq Require Import Floats.
 From JM Require Import Model.Base Model.Num Model.Utf8 Model.Value Model.JsonText
-     Model.Lexer Model.Parser Model.Slice Model.Functions Model.Interp Model.Api Model.Cli
+     Model.Lexer Model.Parser Model.Slice Model.Functions Model.Interp Model.Api Model.Cli Model.GoVal
      Spec.Grammar Spec.PySlice Spec.Semantics Inst.FloatNum Run.Checker.
 
 Record ecase := ECase {
   ec_id : nat; ec_tree : @expr FloatNum; ec_text : bytes; ec_doc : @value FloatNum;
   ec_mode : cmp_mode; ec_go_ast : aobs; ec_go : obs }.
 
-Inductive anycase := CS (c : scase) | CE (c : ecase) | CA (c : acase) | CT (c : tcase) | CC (c : ccase).
+Inductive anycase := CS (c : scase) | CE (c : ecase) | CA (c : acase) | CT (c : tcase) | CC (c : ccase) | CG (c : gcase).
 
 Definition spec_obs (t : expr) (d : value) : obs := obs_of_outcome false (eval ord_id t d).
 
@@ -50,6 +50,7 @@ Definition check_case (c : anycase) : nat * list N :=
   | CT c => (tc_id c,
              if tobs_match (tobs_of (tokenize (tc_expr c))) (tc_go c) then [] else [8%N])
   | CC c => (cc_id c, if ccase_ok c then [] else [6%N])
+  | CG c => (gc_id c, if gcase_ok c then [] else [6%N])
   end.
 
 Definition report (cs : list anycase) : list (nat * list N) :=
@@ -66,6 +67,7 @@ Definition explain (c : anycase) :=
   | CA c => (None, None, Some (aobs_of (Api.compile (ac_expr c))), None)
   | CT c => (None, None, None, None)
   | CC c => (None, None, None, None)
+  | CG c => (Some (gobs c), None, None, None)
   end.
 
 (* Monomorphic names for generated files: no implicit NumOps argument is left to
